@@ -7,8 +7,7 @@
    accepted history, i.e. over every allocation policy, including the code's own (C01_lifo_is_accepted).
    [ledger evs] is the ownership map recomputed from the observable events only.
    Variants: [Repaired] = what /repo does now (every fixes/C01_*.patch is committed there) - the theorems;
-   [V4Pd] = /repo as of 27a2839: NewPrefixAllocator accepts an IPv4 network for a PD pool (recorded `known:`,
-   fixes/C01_pd_ipv6_only.patch) - the only variant besides [Repaired] the correspondence uses;
+   [V4Pd] = before 2cd02c0 (NewPrefixAllocator accepted an IPv4 network for a PD pool);
    [Unguarded] = before a1ebdc8 / 1de6b72 (range loops unguarded, PD prefix length unvalidated);
    [SharedVrf], [Defective] = still earlier states of the code (see Model.v).  The `_refuted` statements are
    historical witnesses of defects that are fixed; the correspondence check compares with [Repaired] only. *)
@@ -661,8 +660,8 @@ Proof.
 Qed.
 Print Assumptions C01_resolve6_stakes_its_answer.
 
-(* open finding (known:, fixes/C01_pd_ipv6_only.patch): NewPrefixAllocator accepts an IPv4 network; the index
-   arithmetic then runs on ::ffff:10.0.0.0 and the second "prefix" of 10.0.0.0/24 -> /26 is 0:40::ffff:a00:0 *)
+(* historical (fixed in 2cd02c0): NewPrefixAllocator accepted an IPv4 network; the index
+   arithmetic then ran on ::ffff:10.0.0.0 and the second "prefix" of 10.0.0.0/24 -> /26 is 0:40::ffff:a00:0 *)
 Definition ex_pd_v4 : pdcfg := {| pd_net := 167772160; pd_nbits := 24; pd_plen := 26; pd_v4 := true |}.
 Theorem C01_pd_ipv4_network_refuted :
   pd_new V4Pd ex_pd_v4 = true /\ pd_new Repaired ex_pd_v4 = false /\
@@ -670,3 +669,32 @@ Theorem C01_pd_ipv4_network_refuted :
   index_to_prefix ex_pd_v4 1 = 5070602400912917887457662337024.   (* 0:40::ffff:a00:0 *)
 Proof. vm_compute. repeat split; reflexivity. Qed.
 Print Assumptions C01_pd_ipv4_network_refuted.
+
+(* ---- ReservePD / ReservePDInPool since 23daa44: a prefix that no PD pool contains (it is not one of any
+   pool's delegations) leaves every allocator untouched; it is REFUSED when it overlaps the network of some
+   PD pool (another length covering the network or lying inside it, or the delegated length at a position
+   Contains rejects) and accepted as an unmanaged prefix otherwise *)
+Theorem C01_reserve_pd_overlap_refused :
+  forall v st p s st' r,
+    reg_step v st (RReserve FPD (RP p) s None) = Some (st', r) ->
+    st' = st /\ (forall e, In e (r_allocs st FPD) -> acontains v (fst (snd e)) (RP p) = false) /\
+    ((pd_overlap v st (RP p) = true /\ r = ROOverlap) \/ (pd_overlap v st (RP p) = false /\ r = ROOk)).
+Proof. exact reserve_pd_no_pool. Qed.
+Print Assumptions C01_reserve_pd_overlap_refused.
+
+Theorem C01_overlaps_spec :
+  forall v c ip ones bits, overlaps v c (Pfx ip ones bits) = true ->
+    prefix_to_index v c (Pfx ip ones bits) = None /\ bits = 128 /\
+    exists A, norm ip = Some (V6, A) /\
+              A / 2 ^ (128 - N.min (pd_nbits c) ones) = pd_base c / 2 ^ (128 - N.min (pd_nbits c) ones).
+Proof. exact overlaps_spec. Qed.
+Print Assumptions C01_overlaps_spec.
+
+(* 2001:db8::/64 -> /72 (ex_pd): the covering /56 and an enclosed /80 are refused, a /72 elsewhere is accepted *)
+Example C01_reserve_pd_overlap_nonvacuous :
+  let st := reg_init Repaired ex_reg in
+  reg_step Repaired st (RReserve FPD (RP (Pfx (Some (V6, pd_net ex_pd)) 56 128)) 1 None) = Some (st, ROOverlap) /\
+  reg_step Repaired st (RReserve FPD (RP (Pfx (Some (V6, pd_net ex_pd + 65536)) 80 128)) 1 None) = Some (st, ROOverlap) /\
+  reg_step Repaired st (RReserve FPD (RP (Pfx (Some (V6, pd_net ex_pd + 2 ^ 100)) 72 128)) 1 None) = Some (st, ROOk).
+Proof. vm_compute. repeat split; reflexivity. Qed.
+Print Assumptions C01_reserve_pd_overlap_nonvacuous.
